@@ -30,6 +30,16 @@ struct SlotInfo {
     kind: SK,
     obj: usize,
     polled: bool,
+    /// the body awaits futures of other objects: once polled, those objects are held too
+    nested_await: bool,
+}
+
+fn has_nested_await(steps: &[Step]) -> bool {
+    steps.iter().any(|s| match s {
+        Step::AwaitFutSync { .. } | Step::AwaitFutDesync { .. } => true,
+        Step::NestedDesync { body, .. } | Step::NestedSync { body, .. } | Step::NestedFutDesync { body, .. } => has_nested_await(body),
+        _ => false,
+    })
 }
 
 pub struct NormOpts {
@@ -85,14 +95,25 @@ pub fn normalize(raw: &Case, opts: &NormOpts) -> Case {
     cfg.pre_open = cfg.pre_open.iter().filter(|_| cfg.gates > 0).map(|g| sc(*g, cfg.gates as usize)).collect();
     cfg.pre_open.sort();
     cfg.pre_open.dedup();
-    let cfg = case.cfg.clone();
-    let objects = cfg.objects as usize;
-    let mut stream_used = vec![false; cfg.streams as usize];
+    let base_cfg = case.cfg.clone();
+    let objects = base_cfg.objects as usize;
+    let mut pool_now = base_cfg.pool;
+    let mut stream_used = vec![false; base_cfg.streams as usize];
     let multi_phase = case.phases.len() > 1;
     if multi_phase {
         case.cfg.root_holds = true;
     }
     for ph in case.phases.iter_mut() {
+        // the pool maximum in force during this phase decides which pool-0 scope rules apply
+        for act in ph.root.iter() {
+            match act {
+                RootAct::SetPool { n } | RootAct::SetPoolPublic { n } => pool_now = *n,
+                _ => {}
+            }
+        }
+        let mut cfg = base_cfg.clone();
+        cfg.pool = pool_now;
+        let cfg = cfg;
         for act in ph.root.iter_mut() {
             if let RootAct::OpenGate { g } = act {
                 *g = if cfg.gates > 0 { sc(*g, cfg.gates as usize) } else { 0 };
@@ -113,6 +134,12 @@ pub fn normalize(raw: &Case, opts: &NormOpts) -> Case {
             }
         }
         ph.producers.truncate(cfg.streams as usize);
+        for prog in ph.producers.iter_mut() {
+            // nothing is pushed into a stream after it has ended
+            if let Some(k) = prog.iter().position(|p| matches!(p, POp::Close)) {
+                prog.truncate(k + 1);
+            }
+        }
         let mut done_callers: Vec<Vec<Op>> = vec![];
         // With no pool thread, awaiting a future only makes progress if the awaiting task itself can run the queue,
         // which the library promises only when no other context is using the object (C07's scope): at pool 0 a
@@ -126,7 +153,7 @@ pub fn normalize(raw: &Case, opts: &NormOpts) -> Case {
             // the object this caller currently "holds" in the lock-ordering sense (unfinished future_sync,
             // active suspension, polled-but-unfinished future): blocking is only allowed on higher objects
             let hold_of = |slots: &[Option<SlotInfo>; NSLOTS]| -> Option<(usize, usize)> {
-                slots.iter().enumerate().filter_map(|(i, s)| s.map(|s| (i, s))).find(|(_, s)| matches!(s.kind, SK::FutSync | SK::Suspend | SK::Resumer) || s.polled).map(|(i, s)| (i, s.obj))
+                slots.iter().enumerate().filter_map(|(i, s)| s.map(|s| (i, s))).find(|(_, s)| matches!(s.kind, SK::FutSync | SK::Suspend | SK::Resumer) || s.polled).map(|(i, s)| (i, if s.polled && s.nested_await { usize::MAX } else { s.obj }))
             };
             for op in ops.iter() {
                 let hold = hold_of(&slots);
@@ -165,8 +192,9 @@ pub fn normalize(raw: &Case, opts: &NormOpts) -> Case {
                     Op::FutDesync { o, body, slot, .. } => {
                         let (o, s) = (o_of(*o), sl(*slot));
                         if held[o] && slots[s].is_none() {
-                            slots[s] = Some(SlotInfo { kind: SK::FutDesync, obj: o, polled: false });
-                            Op::FutDesync { o: o as u8, body: norm_steps(body, o, &cfg, true, 0, opts), slot: s as u8, id: 0 }
+                            let body = norm_steps(body, o, &cfg, true, 0, opts);
+                            slots[s] = Some(SlotInfo { kind: SK::FutDesync, obj: o, polled: false, nested_await: has_nested_await(&body) });
+                            Op::FutDesync { o: o as u8, body, slot: s as u8, id: 0 }
                         } else {
                             Op::Nop
                         }
@@ -174,7 +202,7 @@ pub fn normalize(raw: &Case, opts: &NormOpts) -> Case {
                     Op::After { o, g, body, slot, .. } => {
                         let (o, s) = (o_of(*o), sl(*slot));
                         if held[o] && slots[s].is_none() && cfg.gates > 0 {
-                            slots[s] = Some(SlotInfo { kind: SK::After, obj: o, polled: false });
+                            slots[s] = Some(SlotInfo { kind: SK::After, obj: o, polled: false, nested_await: false });
                             Op::After { o: o as u8, g: sc(*g, cfg.gates as usize), body: norm_steps(body, o, &cfg, false, 0, opts), slot: s as u8, id: 0 }
                         } else {
                             Op::Nop
@@ -184,8 +212,9 @@ pub fn normalize(raw: &Case, opts: &NormOpts) -> Case {
                         let (o, s) = (o_of(*o), sl(*slot));
                         // at most one hold at a time, taken in increasing object order
                         if held[o] && slots[s].is_none() && hold.is_none() {
-                            slots[s] = Some(SlotInfo { kind: SK::FutSync, obj: o, polled: false });
-                            Op::FutSync { o: o as u8, body: norm_steps(body, o, &cfg, true, 0, opts), slot: s as u8, id: 0 }
+                            let body = norm_steps(body, o, &cfg, true, 0, opts);
+                            slots[s] = Some(SlotInfo { kind: SK::FutSync, obj: o, polled: false, nested_await: has_nested_await(&body) });
+                            Op::FutSync { o: o as u8, body, slot: s as u8, id: 0 }
                         } else {
                             Op::Nop
                         }
@@ -230,6 +259,10 @@ pub fn normalize(raw: &Case, opts: &NormOpts) -> Case {
                         let s = sl(*slot);
                         let detach = matches!(op, Op::Detach { .. });
                         match slots[s] {
+                            Some(si) if si.kind == SK::Suspend => {
+                                slots[s] = None;
+                                Op::DropFut { slot: s as u8 }
+                            }
                             Some(si) if matches!(si.kind, SK::FutDesync | SK::FutSync | SK::After) => {
                                 slots[s] = None;
                                 if cfg.pool == 0 && si.polled {
@@ -281,7 +314,7 @@ pub fn normalize(raw: &Case, opts: &NormOpts) -> Case {
                     Op::Suspend { o, slot, .. } => {
                         let (o, s) = (o_of(*o), sl(*slot));
                         if cfg.level == Level::Queue && held[o] && slots[s].is_none() && hold.is_none() {
-                            slots[s] = Some(SlotInfo { kind: SK::Suspend, obj: o, polled: false });
+                            slots[s] = Some(SlotInfo { kind: SK::Suspend, obj: o, polled: false, nested_await: false });
                             Op::Suspend { o: o as u8, slot: s as u8, id: 0 }
                         } else {
                             Op::Nop
@@ -290,6 +323,11 @@ pub fn normalize(raw: &Case, opts: &NormOpts) -> Case {
                     Op::AwaitSuspend { slot } => {
                         let s = sl(*slot);
                         match slots[s] {
+                            Some(si) if si.kind == SK::Suspend && cfg.pool == 0 && users[si.obj] > 1 => {
+                                // same scope rule as for awaiting any other future at pool 0
+                                slots[s] = None;
+                                Op::DropFut { slot: s as u8 }
+                            }
                             Some(si) if si.kind == SK::Suspend => {
                                 slots[s] = Some(SlotInfo { kind: SK::Resumer, ..si });
                                 Op::AwaitSuspend { slot: s as u8 }
